@@ -18,6 +18,7 @@ func main() {
 	out := flag.String("out", "/verif/out/dev", "output dir")
 	dump := flag.Bool("dump", false, "keep smt files")
 	list := flag.String("list", "", "list function keys containing substring")
+	shadowed := flag.Bool("shadowed", false, "print contracts that are shadowed by another contract of the same function (duplicates across files)")
 	lemma := flag.String("lemma", "", "lemma name to check")
 	timeout := flag.Int("t", 10, "solver timeout (s)")
 	ssaDump := flag.String("ssa", "", "print SSA of function key(s)")
@@ -30,6 +31,12 @@ func main() {
 	if err != nil {
 		fmt.Fprintln(os.Stderr, "error:", err)
 		os.Exit(2)
+	}
+	if *shadowed {
+		for _, sh := range eng.contracts.Shadowed {
+			fmt.Println(sh)
+		}
+		return
 	}
 	if *list != "" {
 		var ks []string
